@@ -104,8 +104,13 @@ def label_rich():
     @st.composite
     def rich(draw):
         s = draw(st.sampled_from(_ident_start)) + draw(plain)
-        if draw(st.booleans()):
+        k = draw(st.integers(0, 3))
+        if k == 1:
             s += "{" + draw(plain) + "}" + draw(plain)
+        elif k == 2:  # nested braces, e.g. R_{ct_{1}}
+            s += "{" + draw(plain) + "{" + draw(plain) + "}" + draw(plain) + "}" + draw(plain)
+        elif k == 3:  # side-by-side groups
+            s += "{" + draw(plain) + "}" + draw(plain) + "{" + draw(plain) + "}"
         return s.strip()
 
     return rich()
